@@ -24,7 +24,7 @@ FILES = {
     "hotp.go": ["C01", "C03", "C16"],
     "totp.go": ["C02", "C04", "C16"],
     "ocra.go": ["C05", "C06"],
-    "otp.go": ["C14", "C17", "C08", "C16", "C05"],
+    "otp.go": ["C14", "C17", "C08", "C16", "C05", "C02", "C18"],
     "suite_rfc6287.go": ["C15", "C14", "C05"],
     "utils.go": ["C17"],
     "validate.go": ["C03", "C04", "C06", "C13", "C09"],
